@@ -13,6 +13,9 @@ pub struct Counting;
 pub static ALLOC_BEAT: std::sync::atomic::AtomicU64 = std::sync::atomic::AtomicU64::new(0);
 pub const STALL_SECS: u64 = 120;
 thread_local! { static PROGRESS: std::cell::RefCell<Option<std::sync::Arc<std::sync::atomic::AtomicU64>>> = std::cell::RefCell::new(None); }
+/// A check that is registered for several properties asserts, in each run, only the clauses of the property being decided
+/// (`VP_PROP`, set by the engine); run by hand without it, every clause is asserted.
+pub fn deciding(props: &[&str]) -> bool { match std::env::var("VP_PROP") { Ok(p) => props.iter().any(|x| *x == p), Err(_) => true } }
 pub fn progress() { PROGRESS.with(|p| if let Some(c) = &*p.borrow() { c.fetch_add(1, Ordering::Relaxed); }) }
 pub fn watched(body: fn()) {
     let counter = std::sync::Arc::new(std::sync::atomic::AtomicU64::new(0));
